@@ -251,6 +251,20 @@ pub const PANIC_NONE: u8 = 0;
 pub const PANIC_STATIC: u8 = 1;
 pub const PANIC_FORMATTED: u8 = 2;
 pub const PANIC_ANY: u8 = 3;
+/// the method body does not panic, the implementation's `Drop` does
+pub const PANIC_IN_DROP: u8 = 4;
+pub const MSG_DROP: &str = "boom-in-drop";
+
+/// Panics when dropped, if armed (a panic in the implementation's destructor).
+pub struct DropBomb(pub bool);
+impl Drop for DropBomb {
+    fn drop(&mut self) {
+        if self.0 {
+            self.0 = false;
+            panic!("boom-in-drop");
+        }
+    }
+}
 pub const MSG_STATIC: &str = "boom-static-str";
 pub const MSG_FORMATTED: &str = "boom-formatted 42";
 pub const MSG_CALLBACK: &str = "cb-boom-static";
@@ -266,15 +280,26 @@ pub struct ImplCtx {
     stored: RefCell<Vec<(usize, Stored)>>,
     ret_seq: Cell<u32>,
     _t: Tracker,
+    /// last field: everything else is released before the destructor panics
+    _bomb: DropBomb,
 }
 impl ImplCtx {
     pub fn new(ret: Value, keep: bool, panic: u8) -> ImplCtx {
-        ImplCtx { ret, keep, panic: Cell::new(panic), stored: RefCell::new(vec![]), ret_seq: Cell::new(0), _t: Tracker::new("impl") }
+        let in_drop = panic == PANIC_IN_DROP;
+        ImplCtx {
+            ret,
+            keep,
+            panic: Cell::new(if in_drop { PANIC_NONE } else { panic }),
+            stored: RefCell::new(vec![]),
+            ret_seq: Cell::new(0),
+            _t: Tracker::new("impl"),
+            _bomb: DropBomb(in_drop),
+        }
     }
     /// for implementations that cannot hold an `ImplCtx` (must be `Send + Sync`)
-    pub fn into_parts(self) -> (Value, u8, Tracker) {
-        let ImplCtx { ret, panic, _t, .. } = self;
-        (ret, panic.get(), _t)
+    pub fn into_parts(self) -> (Value, u8, Tracker, DropBomb) {
+        let ImplCtx { ret, panic, _t, _bomb, .. } = self;
+        (ret, panic.get(), _t, _bomb)
     }
     pub fn enter(&self, m: &str) {
         log(json!({"ev": "enter", "m": m}));
@@ -395,6 +420,21 @@ pub fn obs_boxfn(_cx: &ImplCtx, i: usize, a: &mut Box<dyn Fn(u32) -> u32>) {
         log(json!({"ev": "cbret", "i": i, "x": x, "r": r}));
     }
 }
+pub fn obs_boxfnss(_cx: &ImplCtx, i: usize, a: &mut Box<dyn Fn(u32) -> u32 + Send + Sync>) {
+    for x in XS {
+        let r = (*a)(x);
+        log(json!({"ev": "cbret", "i": i, "x": x, "r": r}));
+    }
+}
+/// the callback's own argument block (4 + 16 + 8 + n) and its returned string cross 64 bytes
+pub fn obs_rfnstr(_cx: &ImplCtx, i: usize, a: &mut &dyn Fn(&str, String) -> String) {
+    for (n0, n1) in [(0usize, 0usize), (3, 35), (3, 36), (3, 37), (70, 80)] {
+        let x0: String = "r".repeat(n0);
+        let x1: String = "o".repeat(n1);
+        let r = (*a)(&x0, x1);
+        log(json!({"ev": "cbret", "i": i, "x": [n0, n1], "r": r}));
+    }
+}
 pub fn obs_boxfnmut(_cx: &ImplCtx, i: usize, a: &mut Box<dyn FnMut(u32)>) {
     for x in XS {
         (*a)(x);
@@ -410,6 +450,11 @@ pub fn fin_boxt2(cx: &ImplCtx, i: usize, a: Box<dyn T2>) {
     }
 }
 pub fn fin_boxfn(cx: &ImplCtx, i: usize, a: Box<dyn Fn(u32) -> u32>) {
+    if cx.keep {
+        cx.stored.borrow_mut().push((i, Stored::Fn(a)));
+    }
+}
+pub fn fin_boxfnss(cx: &ImplCtx, i: usize, a: Box<dyn Fn(u32) -> u32 + Send + Sync>) {
     if cx.keep {
         cx.stored.borrow_mut().push((i, Stored::Fn(a)));
     }
@@ -623,14 +668,24 @@ pub fn mk_optstring(_cc: &CallCtx, _i: usize, v: &Value) -> Option<String> {
         Some(str_of(v))
     }
 }
+/// `"wrapped": true`: the object handed over is itself an `AbiConnection` (an object that came
+/// out of one connection is passed into another one)
 pub fn mk_boxt2(cc: &CallCtx, i: usize, v: &Value) -> Box<dyn T2> {
-    Box::new(T2Obj::new(&cc.label(i), u32_of(&v["base"])))
+    let b: Box<dyn T2> = Box::new(T2Obj::new(&cc.label(i), u32_of(&v["base"])));
+    if v["wrapped"].as_bool() == Some(true) {
+        match savefile_abi::AbiConnection::<dyn T2>::from_boxed_trait(b) {
+            Ok(c) => Box::new(c),
+            Err(e) => vcommon::machinery_error(&format!("cannot wrap a T2 object: {:?}", e)),
+        }
+    } else {
+        b
+    }
 }
-pub fn mk_rt2(cc: &CallCtx, i: usize, v: &Value) -> T2Obj {
-    T2Obj::new(&cc.label(i), u32_of(&v["base"]))
+pub fn mk_rt2(cc: &CallCtx, i: usize, v: &Value) -> Box<dyn T2> {
+    mk_boxt2(cc, i, v)
 }
-pub fn mk_rmt2(cc: &CallCtx, i: usize, v: &Value) -> T2Obj {
-    T2Obj::new(&cc.label(i), u32_of(&v["base"]))
+pub fn mk_rmt2(cc: &CallCtx, i: usize, v: &Value) -> Box<dyn T2> {
+    mk_boxt2(cc, i, v)
 }
 pub fn mk_rfn(_cc: &CallCtx, i: usize, v: &Value) -> impl Fn(u32) -> u32 {
     let (m, a) = (u32_of(&v["mul"]), u32_of(&v["add"]));
@@ -657,6 +712,23 @@ pub fn mk_boxfn(cc: &CallCtx, i: usize, v: &Value) -> Box<dyn Fn(u32) -> u32> {
         cb_maybe_panic();
         x.wrapping_mul(m).wrapping_add(a)
     })
+}
+pub fn mk_boxfnss(cc: &CallCtx, i: usize, v: &Value) -> Box<dyn Fn(u32) -> u32 + Send + Sync> {
+    let (m, a) = (u32_of(&v["mul"]), u32_of(&v["add"]));
+    let t = Tracker::new(&cc.label(i));
+    Box::new(move |x| {
+        log(json!({"ev": "cb", "i": i, "x": x, "alive": t.alive()}));
+        cb_maybe_panic();
+        x.wrapping_mul(m).wrapping_add(a)
+    })
+}
+pub fn mk_rfnstr(_cc: &CallCtx, i: usize, v: &Value) -> impl Fn(&str, String) -> String {
+    let suffix = str_of(&v["suffix"]);
+    move |x0: &str, x1: String| {
+        log(json!({"ev": "cb", "i": i, "x0": x0, "x1": x1}));
+        cb_maybe_panic();
+        format!("{}|{}|{}", x0, x1, suffix)
+    }
 }
 pub fn mk_boxfnmut(cc: &CallCtx, i: usize, v: &Value) -> Box<dyn FnMut(u32)> {
     let mut acc = u32_of(&v["add"]);
